@@ -68,7 +68,7 @@ theorem response_data_conforms (fuel : Nat) (S : Schema) (o : Oracle) (env : Env
               exact ⟨rt, kvs, hv, hm⟩
 
 /-- non-vacuity: an adversarial value at an Int position is refused, a good one conforms -/
-def S0 : Schema := ⟨[.scalar "Int", .object "Query" [⟨"n", .named "Int", [], true, true⟩] []], "Query", none, none⟩
+def S0 : Schema := { types := [.scalar "Int", .object "Query" [⟨"n", .named "Int", [], true, true⟩] []], queryType := "Query", mutationType := none, subscriptionType := none }
 def ctx0 : Ctx := ⟨S0, ⟨[], []⟩, [], ⟨[], [], []⟩, ⟨fun _ => none⟩⟩
 example : (run 5 ctx0 (.complete (.named "Int") "Query" "n" [] [.key "n"] (.float .nan)) ({} : St)).1 = .error (.raw "leaf" false "" []) := by rfl
 example : (run 5 ctx0 (.complete (.named "Int") "Query" "n" [] [.key "n"] (.int 7)) ({} : St)).1 = .ok (.int 7) := by rfl
